@@ -401,6 +401,27 @@ MUTANTS = [
     ("dedup-insert-only-for-files", "C19", "src/cli/main.rs",
      "                    seen_files.insert(path.clone());\n", "                    if path.is_dir() {\n                        seen_files.insert(path.clone());\n                    }\n",
      "dedup-not-enforced"),
+    ("builder-do-token-left", "C10", "src/formatters/stmt.rs",
+     "    do_block\n        .to_owned()\n        .with_do_token(do_token)\n        .with_block(block)",
+     "    let _ = do_token;\n    do_block\n        .to_owned()\n        .with_block(block)",
+     "builder-leaves-input-fields Do"),
+    ("waste-hoisted-hang", "C07", "src/formatters/table.rs",
+     """    if trivia_util::can_hang_expression(expression) {
+        if expression.has_inline_comments() {
+            hang_expression(ctx, expression, shape, Some(1)).update_trailing_trivia(trailing_trivia)
+        } else {""",
+     """    let hung = hang_expression(ctx, expression, shape, Some(1));
+    if trivia_util::can_hang_expression(expression) {
+        if expression.has_inline_comments() {
+            hung.update_trailing_trivia(trailing_trivia)
+        } else {""", "formatter-result-unused-on-a-path callee=hang_expression"),
+    ("walker-root-only-if-exists", "C16", "src/cli/main.rs",
+     "        walker_builder.add(file_path);\n", "        if file_path.exists() {\n            walker_builder.add(file_path);\n        }\n",
+     "path-argument-not-added-as-root"),
+    ("return-comment-not-hung", "C02", "src/formatters/block.rs",
+     "        let comment_between_token_and_returns = return_token_trailing_comments\n            || returns\n",
+     "        let comment_between_token_and_returns = returns\n",
+     "comment-test-does-not-force-layout has_trailing_comments"),
 ]
 
 
